@@ -12,6 +12,7 @@ from vlib import hexs
 REQUIRED = ['bdat_sender_framing', 'bdat_sender_frames_parse', 'bdat_sender_payload_exact', 'bdat_predicate_accepts_model',
             'bdat_sender_no_fault', 'bdat_terminates', 'bdat_no_progress_below_minimum', 'bdat_minimum_is_16',
             'bdat_readbin_exact', 'bdat_buffer_fidelity', 'bdat_receiver_fidelity',
+            'bdat_new_transaction_clean', 'bdat_next_transaction_clean', 'bdat_rset_ends_transfer',
             'bdat_failure_sticky', 'bdat_failed_no_handoff', 'bdat_syntax_error_inert', 'bdat_any_error_sticky_counterexample']
 
 CR, LF = 13, 10
